@@ -178,4 +178,17 @@ def mmseUkRhs (H : Chan α d) (fF : Prec α d) (k : Fin K) : Mat α (d.nr k) (d.
 
 end formulas
 
+/-! ## svd initialisation (index arithmetic) -/
+
+/-- the number `n` handed to `least_right_singular_vectors(H_kk, n)` by
+    `_initialize_F_with_svd_and_find_W`: the design-round code passed `Nr − Ns`,
+    the repaired code passes `Nt − Ns` (`H_kk` has `Nt` right singular vectors) -/
+def svdInitDiscard (repaired : Bool) (nr nt ns : Nat) : Nat :=
+  if repaired then nt - ns else nr - ns
+
+/-- number of columns of the initial precoder `V1 = V[:, sort_indexes[n:]]`
+    (`V` is `Nt × Nt`) -/
+def svdInitKept (repaired : Bool) (nr nt ns : Nat) : Nat :=
+  nt - svdInitDiscard repaired nr nt ns
+
 end PyPhysim.C10
